@@ -744,6 +744,64 @@ func (m *csim) entryPath(mod *modgen.Module) string {
 	return p
 }
 
+// retaint decides, for every module touched by tampering, whether it is exempt from the
+// repair oracles: an entry that is STILL reported as found (its marker survived) may stay
+// unusable for ever - readers get a digest mismatch; an entry that is no longer found must
+// be repaired by the next store like any other miss. Decided on a copy, with a fresh store.
+func (m *csim) retaint() {
+	// directory layout: a store skips an entry whose marker is valid, so only tampering that
+	// removes or invalidates the marker (kinds 0-2, never tainted) obliges a later store to
+	// repair. Tar layout: a store always rewrites the tar, so every entry that is no longer
+	// found must be repaired.
+	if len(m.tainted) == 0 || !m.tar {
+		return
+	}
+	m.snapSeq++
+	copyDir := filepath.Join(m.env.Scratch, fmt.Sprintf("taint%d", m.snapSeq))
+	if err := simfs.CopyDir(m.dir, copyDir); err != nil {
+		panic(err)
+	}
+	defer os.RemoveAll(copyDir)
+	raw, err := storageos.NewProvider().NewReadWriteBucket(copyDir)
+	if err != nil {
+		panic(err)
+	}
+	store := bufmodulestore.NewModuleDataStore(slogext.NopLogger, raw, filelock.NewNopLocker(), m.storeOpts()...)
+	for _, idx := range sortedInts(m.tainted) {
+		found, _, err := store.GetModuleDatasForModuleKeys(context.Background(), m.u.Keys([]int{idx}))
+		if err == nil && len(found) == 0 {
+			delete(m.tainted, idx)
+			m.s.Probe("tamper-left-entry-uncached")
+		}
+	}
+}
+
+// isComplete says whether a fresh store (on a copy of the cache) reports the entry as found.
+func (m *csim) isComplete(idx int) bool {
+	m.snapSeq++
+	copyDir := filepath.Join(m.env.Scratch, fmt.Sprintf("complete%d", m.snapSeq))
+	if err := simfs.CopyDir(m.dir, copyDir); err != nil {
+		panic(err)
+	}
+	defer os.RemoveAll(copyDir)
+	raw, err := storageos.NewProvider().NewReadWriteBucket(copyDir)
+	if err != nil {
+		panic(err)
+	}
+	store := bufmodulestore.NewModuleDataStore(slogext.NopLogger, raw, filelock.NewNopLocker(), m.storeOpts()...)
+	found, _, err := store.GetModuleDatasForModuleKeys(context.Background(), m.u.Keys([]int{idx}))
+	return err == nil && len(found) == 1
+}
+
+func sortedInts(m map[int]bool) []int {
+	var out []int
+	for k := range m {
+		out = append(out, k)
+	}
+	sort.Ints(out)
+	return out
+}
+
 func (m *csim) tamperCommit() {
 	idx := m.tp.Draw("tcmod", len(m.u.Modules))
 	mod := m.u.Modules[idx]
@@ -782,6 +840,10 @@ func (m *csim) tamper() {
 	if _, err := os.Stat(entry); err != nil {
 		return
 	}
+	// the property speaks about tampering with a COMPLETE entry
+	if !m.isComplete(idx) {
+		return
+	}
 	if m.tar {
 		data, err := os.ReadFile(entry)
 		if err != nil || len(data) == 0 {
@@ -795,7 +857,12 @@ func (m *csim) tamper() {
 			m.tainted[idx] = true
 			m.s.Fired("tamper-flip")
 		case 1:
-			_ = os.WriteFile(entry, data[:m.tp.Draw("tlen", len(data))], 0o644)
+			// tar members are 512-byte aligned: a cut at a block boundary leaves a well-formed shorter archive
+			n := m.tp.Draw("tlen", len(data))
+			if m.tp.Draw("tblock", 2) == 1 {
+				n = 512 * m.tp.Draw("tblocks", len(data)/512+1)
+			}
+			_ = os.WriteFile(entry, data[:n], 0o644)
 			m.tainted[idx] = true
 			m.s.Fired("tamper-truncate")
 		default:
@@ -975,6 +1042,7 @@ func Run(tp *tape.Tape, env *engine.Env) *engine.Outcome {
 		m.recover2(fmt.Sprintf("quiescent point after epoch %d", e))
 		if sw.faults && e+1 < epochs && tp.Draw("tamper?", 2) == 1 {
 			m.tamper()
+			m.retaint()
 			// tampered state is a state too
 			m.recover2(fmt.Sprintf("after tampering following epoch %d", e))
 		}
